@@ -119,6 +119,21 @@ def tricky_cases(ctx):
     return cases
 
 
+def ws_class_cases(ctx):
+    """texts written with one kind of white space only, control characters inside their string literals (gen.ws_class_texts); the independent
+    recogniser says which of them are sentences"""
+    import recogniser
+    cases = []
+    for sep, s, t in gen.ws_class_texts():
+        if not recogniser.accepts(t):
+            ctx.count("ws-class:not-a-sentence")
+            continue
+        ctx.count("ws-class:sentence")
+        envs = [{"u": "u1", "x": s}, {"u": 7, "x": s + " "}, {"u": "u2", "x": s.replace("\r", "\n")}, {"u": "u3", "x": ""}]
+        cases.append({"prog": None, "text": t, "envs": envs, "must_compile": True})
+    return cases
+
+
 def tower_cases(ctx):
     """chains nested in the last branch of chains and chains at every nesting level: the explored
     maxima (nesting 12, chains of 60) taken together along ONE path, which a random program never does"""
@@ -278,13 +293,15 @@ def run(ctx):
                          "single-letter names, fields shared between splitters and conditions, identifiers and tuples "
                          "inside tuples; type-compatible inputs derived from the literals; distinct = distinct source text; "
                          "non-trivial = compiled")
-    corpus = corpus_cases(ctx) + tricky_cases(ctx) + tower_cases(ctx)
+    corpus = corpus_cases(ctx) + tricky_cases(ctx) + tower_cases(ctx) + ws_class_cases(ctx)
     ctx.count("corpus-programs", len(corpus))
     records = progcases.run_cases(ctx, corpus + make_cases(ctx, n, big=True))
     canon_tie(ctx, records)
     # dimension sweeps: (nearly) every size along every dimension, all of them in the thorough tier, a seeded third in the quick tier
     progcases.run_cases(ctx, gen.sweep_cases(ctx.rng, 1.0 if ctx.tier == "thorough" else 0.34))
     progcases.run_cases(ctx, gen.huge_flat_cases(ctx.rng, ctx.tier == "thorough"), check_model=False, want_stages=False)
+    # the same statement several times in one program, at different depths
+    progcases.run_cases(ctx, gen.repeated_leaf_programs(ctx.rng, None if ctx.tier == 'thorough' else [1, 3, 20, 21, 24, 33, 65]), want_stages=False)
     progcases.run_cases(ctx, gen.membership_cases(ctx.rng, 60 if ctx.tier == 'quick' else 1500), check_model=False, want_stages=False)
     run_k1(ctx)
 
